@@ -44,7 +44,7 @@ def run_trace(prop, spec, loop_seed):
             # read-only queries in the middle of the run, at quiescent points
             state['n'] += 1
             if state['n'] % 2 == 0:
-                inspect_everything(reg[spec['id']], reg)
+                inspect_everything(reg[spec['id']], reg, state['n'] // 2)
     exe = execute(spec, loop_seed=loop_seed, quiescent=quiescent)
     m = Model(exe)
     out = Out(prop)
@@ -335,7 +335,7 @@ def run_poll(prop, spec, loop_seed):
         if mid and not final and state['polls'] % 2 == 0:
             # read-only queries in the middle of the run, at a quiescent point
             from .jobs import inspect_everything
-            inspect_everything(reg[top_id], reg)
+            inspect_everything(reg[top_id], reg, state['polls'] // 2)
             out.count('read-only API sweeps in the middle of a run')
         for vid, job in reg.items():
             if vid == top_id:
@@ -389,6 +389,14 @@ def run_poll(prop, spec, loop_seed):
                     if res is not ret['val']:
                         out.violation('result', "%s: result() is %r, the body returned %r" % (where, res, ret['val']))
                     out.count('result() identity checks')
+                    if hasattr(job, 'jobs'):
+                        # what the "body" of a nested scheduler returns is a verdict
+                        out.count('verdicts read from finished nested schedulers')
+                        if res is not True and res is not False:
+                            out.violation('result', "%s: a nested scheduler is reported done with result() %r, "
+                                          "which is no verdict%s" % (where, res, " (it had been sent a cancel request)"
+                                                                     if can or any(e['kind'] == 'task_cancel' for e in
+                                                                                   trace.events if e['who'] == vid) else ""))
                 except BaseException as err:            # noqa
                     out.violation('result', "%s: result() raised %r after the body returned" % (where, err))
                 if exc is not None:
